@@ -221,7 +221,7 @@ def execute(plan):
                 stats["nj.no_next_iterate"] += 1
             else:
                 verdict, info, act = compare_restart(
-                    problem, cfg, store.eager[-1], np.asarray(ref.result.x, dtype=float), k + 1, plan["crash_seed"] + k, stats
+                    problem, cfg, store.eager[-1], np.asarray(ref.result.x, dtype=float), k + 1, plan["crash_seed"] + k, stats, ref_act=ref
                 )
                 stats["or.recovery"] += 1
                 if verdict == "ok" and act.result.nit != ref.result.nit:
